@@ -32,6 +32,8 @@ for off in range(0, len(cases), CH):
             nontriv[p] = nontriv.get(p, 0) + 1
         for p, ks in (r.get("keys") or {}).items():
             for key, det in ks:
+                if p != "C19":
+                    key = "%s|%s" % (key, fixrun.variant_class(c))
                 d = agg.setdefault(p, {}).setdefault(key, {"count": 0, "examples": []})
                 d["count"] += 1
                 if len(d["examples"]) < 2:
